@@ -263,6 +263,9 @@ impl Directive {
                             messages: messages.clone(),
                         };
                         parse_file_internal(&context)?;
+                        include_paths
+                            .borrow_mut()
+                            .extend(context.include_paths.borrow().iter().cloned());
                     } else {
                         bail!("wrong format for .include, expected: {} in {}", opts, point,);
                     }
